@@ -339,15 +339,15 @@ def h_round():
              'enum { var_INTEGER = 1 };\nint kind; double g_rhs; int g_body_type;\n'
              'static double algc_rhs(void) { return g_rhs; }\nstatic void algc_set_rhs(double r) { g_rhs = r; }\n'
              'struct { int t; } bnt_body;\nstatic int bnt_body_get_result_type(void) { return g_body_type; }\n',
-             Fn(PP, r'if \(var::INTEGER == bnt_body\.get_result_type\(\)\s*&& std::floor\(rhs\) != std::ceil\(rhs\)\)', 'void vp_round_rhs(double rhs)',
-                block_end=r'assert\(-2==kind\);\s*algc\.set_rhs\( std::ceil\(rhs\) \);\s*\}\s*\}',
+             Fn(PP, r'if \(var::INTEGER == bnt_body\.get_result_type\(\)', 'void vp_round_rhs(double rhs)',
+                block_end=r'assert\(-2==kind\);\s*algc\.set_rhs\([^;]*\);\s*\}\s*\}',
                 contract='__CPROVER_requires(rhs == rhs && rhs == g_rhs && (kind == 1 || kind == -1 || kind == 2 || kind == -2) && g_z == g_z && VP_ISINT(g_z)) '
                          '__CPROVER_ensures(g_body_type == var_INTEGER ==> ('
                          '(kind == 1 ==> ((g_z >= rhs) == (g_z >= g_rhs))) && (kind == -1 ==> ((g_z <= rhs) == (g_z <= g_rhs))) && '
                          '(kind == 2 ==> ((g_z > rhs) == (g_z > g_rhs))) && (kind == -2 ==> ((g_z < rhs) == (g_z < g_rhs))))) '
                          '__CPROVER_ensures(g_body_type != var_INTEGER ==> g_rhs == rhs) '
                          '__CPROVER_assigns(g_rhs)',
-                subst=[(r'algc\.set_rhs\(', 'algc_set_rhs(', 4), (r'bnt_body\.get_result_type\(\)', 'bnt_body_get_result_type()', 1)],
+                subst=[(r'algc\.set_rhs\(', 'algc_set_rhs(', -1), (r'bnt_body\.get_result_type\(\)', 'bnt_body_get_result_type()', 1)],
                 label='mp::ConstraintPreprocessors::PreprocessConstraint(ConditionalConstraint<...>&) [rhs rounding]'),
              '''
 void harness(void) { vp_one = 1; kind = nondet_int(); g_rhs = nondet_double(); g_body_type = nondet_int(); g_z = nondet_double();
